@@ -80,6 +80,11 @@ def fp_doc(doc):
           doc.get_lang(), doc.get_cell_resolution(), doc.get_px_resolution(), doc.get_active_area(), doc.get_display_aspect_ratio())
 
 
+def default_region_bg(doc):
+  """witness class: a document without regions whose <initial> background colour paints the implied default region"""
+  return ":default-region-background" if (not list(doc.iter_regions()) and doc.has_initial_value(SP.BackgroundColor)) else ""
+
+
 def times_for(doc):
   ct = S.change_times(doc)
   ts = set(ct)
@@ -118,6 +123,10 @@ def first_diff(a, b, path="isd"):
 
 def check_c01(rec, doc, seed_info):
   ts, _ = times_for(doc)
+  try:
+    sig = ISD.significant_times(doc)
+  except Exception:  # pylint: disable=broad-except
+    sig = None     # reported by C02
   for t in ts:
     want, flags = S.snapshot(doc, t)
     isd, err = safe_from_model(doc, t)
@@ -144,6 +153,24 @@ def check_c01(rec, doc, seed_info):
       rec.fail("c01:" + kinds, "snapshot == TTML active content", f"t={t}: {d}; document {docgen.describe(doc, 700)}", desc,
                observed=repr(got)[:600], required=repr(exp)[:600],
                replayer="replayers.isd:replay", replay_args={"prop": "C01", "gen": seed_info, "t": str(t)})
+      continue
+    # the same snapshot taken with the precomputed significant times: every region WITH CONTENT must be the same
+    # (regions without content may be left out when they paint nothing, see C14)
+    if sig is not None:
+      isd2, err2 = safe_from_model(doc, t, sig)
+      rec.evaluated("snapshot(with significant times) == TTML active content", hash((seed_info, t, 1)) if nontrivial else None, None, nontrivial)
+      if err2 is not None:
+        rec.fail("from_model(cached)-raises:" + type(err2).__name__, "snapshot(with significant times) == TTML active content",
+                 f"ISD.from_model(doc, {t}, sig_times) raised {err2!r}", desc, replayer="replayers.isd:replay",
+                 replay_args={"prop": "C01", "gen": seed_info, "t": str(t)})
+        continue
+      got2 = {r.get_id(): norm(tree(r)) for r in isd2.iter_regions()}
+      got2 = {k: v for k, v in got2.items() if v[2]}
+      exp2 = {k: v for k, v in exp.items() if v[2]}
+      if got2 != exp2:
+        rec.fail("c01-cached:" + classify_diff(got2, exp2), "snapshot(with significant times) == TTML active content",
+                 f"t={t}: with significant times the content regions are {sorted(got2)}, TTML gives {sorted(exp2)}; {docgen.describe(doc, 600)}", desc,
+                 replayer="replayers.isd:replay", replay_args={"prop": "C01", "gen": seed_info, "t": str(t)})
 
 
 def flat(node, out):
@@ -216,7 +243,7 @@ def check_c02(rec, doc, seed_info):
     rec.evaluated("snapshot(t) == snapshot(greatest significant time <= t)", hash((seed_info, t)) if nontrivial else None, None, nontrivial)
     if not prev:
       if cur[0]:
-        rec.fail("content-before-first-significant-time", "snapshot(t) == snapshot(greatest significant time <= t)",
+        rec.fail("content-before-first-significant-time" + default_region_bg(doc), "snapshot(t) == snapshot(greatest significant time <= t)",
                  f"t={t} shows content but the first significant time is {offs[:1]}; {docgen.describe(doc, 600)}", desc,
                  replayer="replayers.isd:replay", replay_args=ra)
       continue
@@ -239,7 +266,7 @@ def check_c02(rec, doc, seed_info):
     return
   rec.evaluated("sequence == snapshots at the significant times", hash((seed_info, "seq")))
   if [t for t, _ in seq] != offs or any(fp_isd(i, True) != snap(t) for t, i in seq):
-    rec.fail("sequence-differs", "sequence == snapshots at the significant times",
+    rec.fail("sequence-differs" + default_region_bg(doc), "sequence == snapshots at the significant times",
              f"generate_isd_sequence gives times {[str(t) for t, _ in seq]}, significant times {[str(t) for t in offs]}", desc,
              replayer="replayers.isd:replay", replay_args=ra)
 
@@ -364,7 +391,7 @@ def check_c14(rec, doc, seed_info, r):
     if fa != fb:
       ga = {x[1] for x in fa[0]}
       gb = {x[1] for x in fb[0]}
-      key = "cached-differs:" + ("region-set" if ga != gb else "content")
+      key = "cached-differs:" + ("region-set" if ga != gb else "content") + default_region_bg(doc)
       rec.fail(key, "cached snapshot renders like the uncached one",
                f"t={t}: uncached regions {sorted(ga)}, cached {sorted(gb)}; {docgen.describe(doc, 700)}", desc,
                replayer="replayers.isd:replay", replay_args=dict(ra, t=str(t)))
@@ -426,6 +453,7 @@ SCOPES = {
   "noregion": {"regions": (0, 0)},
   "multi": {"regions": (2, 3)},
   "plain": {"regions": (0, 1), "ruby": False, "animation": False, "display": False},
+  "background": {"regions": (1, 3), "bgfocus": True, "ruby": False},
 }
 
 
@@ -463,8 +491,8 @@ def main():
   rec = Recorder(PROP, "seeded random canonical-model documents (rtc/docgen.py: 0-3 timed regions, nested div/p/span/br/ruby with rational "
                  "begin/end, region references at any level, display styles and animations, xml:space) x every boundary time, every midpoint, "
                  "0 and last+1; a case is non-trivial when the snapshot has content",
-                 {"documents": per * 16 * len(SCOPES) // 4 * 4, "scopes": list(SCOPES), "times": "all interval boundaries + midpoints + 0 + last+1"})
-  jobs = [(SEED, ch, per, scope) for scope in SCOPES for ch in range(4)]
+                 {"documents": per * 4 * len(SCOPES), "scopes": list(SCOPES), "times": "all interval boundaries + midpoints + 0 + last+1"})
+  jobs = [(SEED, ch, per if scope != "background" or PROP in ("C14", "C02") else per // 2, scope) for scope in SCOPES for ch in range(4)]
   for part in parallel(chunk, jobs):
     rec.merge(part)
   return rec.dump(args.out)
